@@ -530,7 +530,7 @@ class Tree:
         child nodes and return list of results."""
         res = []
         with self:
-            for n in self._root._children:  # pyright: ignore[reportOptionalIterable]
+            for n in self._root.children:
                 res.append(n.to_dict(mapper=mapper))
         return res
 
